@@ -210,6 +210,16 @@ func (ldot1q) Gen(rng *rand.Rand, tier string) []Case {
 		add("tag:field-extreme", "new:"+spec+","+lnFCD[rng.Intn(len(lnFCD))]+","+hx(payloads()))
 		add("tag:field-extreme", "rtn:"+spec+","+hx(payloads()))
 	}
+	// field bounds from both sides: VLAN id 4094..4097 (12 bit, > 0xFFF refused), priority 6..9 (3 bit)
+	for _, vid := range []int{4094, 4095, 4096, 4097} {
+		for _, prio := range []int{0, 6, 7, 8, 9} {
+			for dei := 0; dei < 2; dei++ {
+				spec := fmt.Sprintf("%d.%d.%d.2048", prio, dei, vid)
+				add("tag:field-extreme", "new:"+spec+","+lnFCD[rng.Intn(len(lnFCD))]+","+hx(payloads()))
+				add("tag:field-extreme", "rtn:"+spec+","+hx(payloads()))
+			}
+		}
+	}
 	// seeds: 802.1Q tagged frames among the packet literals of layers/*_test.go, their tags
 	n := 0
 	for _, s := range lnEthSeeds(0x8100) {
